@@ -153,14 +153,12 @@ def positive_control(R):
 
 def rule_next(F, R):
     item = F.find("<walk::WalkTree as std::iter::Iterator>::next")
-    stubs = {
-        "std::iter::Iterator::next": lambda I, a, fn, e: some(err(Sym("error"))),
-        "<walk::WalkError as std::convert::From>::from": lambda I, a, fn, e: Sym("WalkError::from(%s)" % c13._n(a[0])),
-    }
+    stubs = W.walkdir_stubs(on_next=lambda I, f: some(err(Sym("error"))))
+    stubs["<walk::WalkError as std::convert::From>::from"] = lambda I, a, fn, e: Sym("WalkError::from(%s)" % c13._n(a[0]))
     I = W.new_interp(F, stubs)
 
     def run():
-        me = Adt("walk::WalkTree", "WalkTree", {"is_dir": True, "input": Sym("input")})
+        me = W.walk_tree(F, I, is_dir=True)
         return I.call_item(item, [Ref(Place(Cell(me)))])
     for c in I.explore(run):
         inner = c13._unwrap(c.result, ["Some", "Err"])
